@@ -369,6 +369,120 @@ def explore_partition(arg: tuple) -> tuple:
     return ctx.stats, ctx.exhausted, n["p"], found
 
 
+# --- H1: a build does not see state left behind by an earlier build in the same process
+def h1_history(rep: Report) -> None:
+    """Two builds in one interpreter, as far as the "known modules" memo is concerned: the statements
+    build.build executes before it defines its first helper (the per-build resets) are cut out of the
+    source and run at the start of each simulated build; get_known_modules is then called with the
+    typeshed VERSIONS table and target version of that build (both solver-chosen, per build).  The
+    second build must get what a fresh process gets (module state restored to its import-time
+    snapshot)."""
+    import ast
+    import copy
+    import inspect
+    import types
+
+    import mypy.build as B
+    import mypy.known_modules as KM
+
+    src = inspect.getsource(B.build)
+    fn = ast.parse(__import__("textwrap").dedent(src)).body[0]
+    pre = []
+    for st in fn.body:  # type: ignore[attr-defined]
+        if isinstance(st, ast.FunctionDef):
+            break
+        if isinstance(st, ast.Expr) and isinstance(st.value, ast.Call):
+            pre.append(st)
+    code = compile(ast.Module(body=pre, type_ignores=[]), "<build.build preamble>", "exec")
+    rep.kernel("mypy.build.build[per-build resets]", symx.hashlib.sha256("\n".join(ast.unparse(x) for x in pre).encode()).hexdigest()[:16])
+    rep.kernel("mypy.known_modules", symx.source_hash(KM.__file__))
+    snap = {k: copy.deepcopy(v) for k, v in vars(KM).items() if not k.startswith("__") and not isinstance(v, (types.FunctionType, types.ModuleType, type)) and not k.isupper()}
+
+    def restore() -> None:
+        for k, v in snap.items():
+            cur = getattr(KM, k, None)
+            if isinstance(cur, dict) and isinstance(v, dict):
+                cur.clear()
+                cur.update(copy.deepcopy(v))
+            elif isinstance(cur, (list, set)) and isinstance(v, (list, set)):
+                cur.clear()
+                (cur.extend if isinstance(cur, list) else cur.update)(copy.deepcopy(v))
+            else:
+                setattr(KM, k, copy.deepcopy(v))
+
+    TS = [{"aaa": ((3, 0), None), "bbbb": ((3, 10), None)}, {"cccc": ((3, 0), None)}, None]
+    VER = [(3, 8), (3, 12), None]
+    ctx = Ctx()
+    found: dict = {}
+    n = {"p": 0, "differing_inputs": 0}
+
+    def body(c: Ctx) -> None:
+        t1, v1 = TS[c.choose("build1_typeshed", 3)], VER[c.choose("build1_python_version", 3)]
+        t2, v2 = TS[c.choose("build2_typeshed", 3)], VER[c.choose("build2_python_version", 3)]
+        restore()
+        exec(code, vars(B))
+        KM.get_known_modules(t1, v1)
+        exec(code, vars(B))
+        hist = KM.get_known_modules(t2, v2)
+        restore()
+        exec(code, vars(B))
+        fresh = KM.get_known_modules(t2, v2)
+        restore()
+        n["p"] += 1
+        n["differing_inputs"] += 1 if (t1, v1) != (t2, v2) else 0
+        c.stats["assert_queries"] += 1
+        if hist == fresh:
+            c.stats["discharged"] += 1
+        else:
+            c.stats["refuted"] += 1
+            found.setdefault("the set of known module names of a build depends on an earlier build in the same process", (c.path_model(), sorted(hist ^ fresh)[:6]))
+
+    ctx.explore(body)
+    rep.add_ctx("H1 known-modules memo across builds in one process", ctx, histories=n["p"])
+    rep.twin("H1: histories with different typeshed/version reached", n["differing_inputs"] > 0)
+    for key, (m, diff) in found.items():
+        rep.sample({"kernel": "known_modules", "class": key, "model": m, "differs_in": diff})
+
+        def replay(d: str, m: dict = m) -> tuple[bool, str]:
+            # two real builds through mypy.api in one process vs the second one alone in a fresh process
+            ts = []
+            for i, names in enumerate((["aaa", "bbbb"], ["cccc"])):
+                t = os.path.join(d, f"typeshed{i}")
+                import mypy.typeshed as _T  # noqa: F401
+
+                src_ts = os.path.join(os.path.dirname(B.__file__), "typeshed")
+                import shutil as _sh
+
+                _sh.copytree(src_ts, t)
+                with open(os.path.join(t, "stdlib", "VERSIONS"), "a") as f:
+                    for nm in names:
+                        f.write(f"{nm}: 3.0-\n")
+                        open(os.path.join(t, "stdlib", nm + ".pyi"), "w").close()
+                ts.append(t)
+            with open(os.path.join(d, "prog.py"), "w") as f:
+                f.write("import aaab\nimport cccd\n")
+            script = (
+                "import sys\nfrom mypy import api\n"
+                "def run(t): return api.run(['--no-incremental', '--no-error-summary', '--custom-typeshed-dir', t, 'prog.py'])[0]\n"
+                f"first, second = {ts[0]!r}, {ts[1]!r}\n"
+                "if sys.argv[1] == 'history': run(first)\n"
+                "print(run(second))\n"
+            )
+            with open(os.path.join(d, "two_builds.py"), "w") as f:
+                f.write(script)
+            env = dict(os.environ)
+            env.pop("PYTHONPATH", None)
+            outs = []
+            for mode in ("history", "fresh"):
+                p = subprocess.run([sys.executable, "two_builds.py", mode], cwd=d, env=env, capture_output=True, text=True, timeout=900)
+                outs.append(p.stdout.strip() or p.stderr[-300:])
+            for t in ts:
+                _sh.rmtree(t, ignore_errors=True)
+            return outs[0] != outs[1], f"second build after another build in the same process:\n{outs[0][:500]}\nsame build in a fresh process:\n{outs[1][:500]}"
+
+        rep.candidate(key, f"history {m}: differs in {diff}", m, replay)
+
+
 def main(args: Any) -> int:
     rep = Report(PID, args.tier, "symbolic execution of the real ordering functions from a source rewrite with solver-chosen set iteration orders (NDSet), graphs and State.order permutations; partitioned over processes; replay = unmodified functions under many PYTHONHASHSEEDs")
     KG, KB, _ = load_kernels()
@@ -376,7 +490,7 @@ def main(args: Any) -> int:
     rep.kernels_from(KB)
     rep.bounds += ["3 modules; every edge absent / direct (PRI_HIGH) / indirect (PRI_INDIRECT); every State.order permutation; every assignment of iteration ranks to the hashable elements (module ids and SCC sets): a hash-seed model in which each run fixes one order per element universe and every set iterates in that order"]
     rep.assumptions += ["State.order values are distinct (State.order_counter)", "set iteration order is modelled as a per-run total order on elements (insertion-history effects of CPython's open addressing are not modelled)", "the hash function is applied to the recorded token stream (typed token buffer instead of WriteBuffer)"]
-    rep.outside += ["hash-seed independence of whole runs and of cache bytes; independence from earlier builds in the same process: global interpreter state, not encodable"]
+    rep.outside += ["hash-seed independence of whole runs and of cache bytes; independence from earlier builds in the same process beyond the known-modules memo (H1): global interpreter state, not encodable in general"]
     perms = list(itertools.permutations([1, 2, 3]))
     parts = [(k, p, m) for k in ("order", "replay") for p in perms for m in range(9)]
     if args.tier == "quick":
@@ -395,6 +509,8 @@ def main(args: Any) -> int:
         np_ += n
         for k, v in fnd.items():
             found.setdefault(k, v)
+    h1_history(rep)
+    rep.bounds.append("H1: two builds in one process, typeshed VERSIONS table (3 choices) and target version (3 choices) solver-chosen per build; only the known-modules memo and the resets at the top of build.build")
     rep.add_ctx("ordering kernels under nondeterministic set iteration", tot, partitions=len(parts), compared=np_)
     rep.twin("ordering kernels compared on some path", np_ > 0)
     rep.sample({"modules": MODS, "partitions": len(parts), "compared": np_})
